@@ -982,6 +982,15 @@ func (w *symWalker) eval1(e ast.Expr) *Sym {
 					return f
 				}
 			}
+			// a package-level table that is only read, keyed by constants: the entry of the key, or the zero value
+			if k, ok := tableKey(base, idx); ok {
+				if f, ok := base.Fields[k]; ok {
+					return f
+				}
+				if mt, ok := base.Type.Underlying().(*types.Map); ok {
+					return zeroSym(mt.Elem(), x, 1)
+				}
+			}
 		}
 		return &Sym{K: symIndex, X: base, Y: idx, Expr: e}
 	case *ast.SliceExpr:
@@ -1729,6 +1738,14 @@ func (w *symWalker) stmt(st ast.Stmt) (terminates bool) {
 					}
 				} else {
 					part = &Sym{K: symCall, Fn: fmt.Sprintf("result%d", i), Parts: []*Sym{v}}
+					// v, ok := T[k] on a read-only table with a constant key: ok is known
+					if ix, isIdx := ast.Unparen(x.Rhs[0]).(*ast.IndexExpr); isIdx && i == 1 {
+						base := w.eval(ix.X)
+						if k, ok := tableKey(base, w.eval(ix.Index)); ok {
+							_, present := base.Fields[k]
+							part = &Sym{K: symConst, C: constant.MakeBool(present)}
+						}
+					}
 				}
 				w.assign(l, part, x, x.Tok == token.DEFINE)
 			}
@@ -2287,6 +2304,19 @@ func (w *symWalker) globalTable(v *types.Var) *Sym {
 	}
 	sub := &symWalker{p: w.p, pk: pk, info: pk.TypesInfo, env: map[types.Object]*Sym{}, stack: map[types.Object]bool{}, globalsSeen: w.globalsSeen}
 	val := sub.eval(init)
+	if lit, ok := ast.Unparen(init).(*ast.CompositeLit); ok && val != nil && val.K == symStruct && val.Type != nil {
+		if _, isMap := val.Type.Underlying().(*types.Map); isMap {
+			allConst := true
+			for _, el := range lit.Elts {
+				if kv, ok := el.(*ast.KeyValueExpr); !ok || pk.TypesInfo.Types[kv.Key].Value == nil {
+					allConst = false
+				}
+			}
+			if allConst {
+				val.Fn = "table"
+			}
+		}
+	}
 	w.globalsSeen[v] = val
 	return val
 }
@@ -2914,4 +2944,16 @@ func (w *symWalker) noteEscapes(branch ast.Node, how token.Token) {
 		}
 		fr.escaped[o] = true
 	}
+}
+
+// tableKey: base is a map literal held by a package-level variable that is only read and whose keys are all constants
+// (globalTable), idx is a constant: the name the entry of idx has in base.Fields.
+func tableKey(base, idx *Sym) (string, bool) {
+	if base == nil || idx == nil || base.K != symStruct || base.Fn != "table" || idx.K != symConst || idx.C == nil {
+		return "", false
+	}
+	if k, ok := idx.ConstString(); ok {
+		return k, true
+	}
+	return idx.String(), true
 }
